@@ -168,6 +168,40 @@ def sentinel(ctx, inst, rets, errs, where):
         for e in o.path.events:
             if e[0] == "mem_read":
                 load = affine(facts, e[2])
+    # the normal-finish signal is raised only on paths where that comparison holds: any other RET that ends execution
+    # swallows a return (it neither loads RIP nor moves RSP) and reports success
+    adt = facts.adts.get("helpers::errors::AxError")
+    fi = [f_["name"] for f_ in adt["variants"][0]["fields"]].index("signals_normal_finish") if adt else None
+    stray = None
+    nfin = 0
+    for o in errs:
+        sig = False
+        stack = [o.value]
+        while stack:
+            x = stack.pop()
+            if isinstance(x, tuple) and x:
+                if x[0] == "agg" and x[1] == "adt:helpers::errors::AxError" and fi is not None and len(x[3]) > fi:
+                    f_ = x[3][fi]
+                    sig = sig or (A.is_int(f_) and f_[1] == 1)
+                stack.extend(y for y in x if isinstance(y, tuple))
+        if not sig:
+            continue
+        nfin += 1
+        held = False
+        for t, op, val in o.path.conds:
+            if t[0] == "bin" and t[1] in ("Eq", "Ne"):
+                d = U.affine_norm(("bin", "Sub", t[2], t[3], 64))
+                if any(U.strip(l)[0] == "field" and U.strip(l)[2] == "stack_top" for l in d[0]):
+                    truth = (val != 0) if op == "==" else True
+                    if truth == (t[1] == "Eq"):
+                        held = True
+        if not held:
+            stray = stray or "execution is ended (normal-finish signal) on a path where the return slot was not compared equal to stack_top"
+    if stray:
+        ck.violation("C04.empty", inst + ",finish", stray, where=where,
+                     what="a RET that should pop and jump ends the run instead: RSP and RIP stay, the run reports success")
+    elif nfin:
+        ck.ok("C04.empty", inst + ",finish", nfin)
     if cmp_addr is None:
         ck.violation("C04.empty", inst, "no comparison with stack_top", where=where)
     elif load is None or cmp_addr[:2] != load[:2]:
